@@ -76,6 +76,67 @@ Proof. exact roundtrip_object. Qed.
 Print Assumptions C01_roundtrip_object.
 
 (* ------------------------------------------------------------------ *)
+(* headers that come out of a load (Proofs/Tr31Loaded.v)                *)
+From Psec Require Import Proofs.Tr31Loaded.
+
+(* every Header a successful Header.load produces - whatever the object held
+   before - satisfies [header_ok]: supported version, fields and reserved field
+   of the right length and alphanumeric, optional blocks accepted by
+   Blocks.__setitem__, none with the pad id, ids pairwise distinct *)
+Theorem C01_header_load_ok : forall st s h n,
+  header_load st s = (h, Ok n) -> header_ok h.
+Proof. exact header_load_ok. Qed.
+Print Assumptions C01_header_load_ok.
+
+(* the same through the object API: after a successful kb.header.load(s) or
+   kb.unwrap(s) the object's header satisfies [header_ok] *)
+Theorem C01_object_load_header_ok : forall (cd ca : cipher) st s n,
+  snd (step cd ca st (OpLoad s)) = OutNat n ->
+  header_ok (st_header (fst (step cd ca st (OpLoad s)))).
+Proof. exact step_load_header_ok. Qed.
+Print Assumptions C01_object_load_header_ok.
+
+Theorem C01_object_unwrap_header_ok : forall (cd ca : cipher) st s k,
+  snd (step cd ca st (OpUnwrap s)) = OutBytes k ->
+  header_ok (st_header (fst (step cd ca st (OpUnwrap s)))).
+Proof. exact step_unwrap_header_ok. Qed.
+Print Assumptions C01_object_unwrap_header_ok.
+
+(* module-level wrap called with a header string, WITHOUT a premise on the
+   header: the load inside wrap_str succeeded, so its header is well formed *)
+Theorem C01_roundtrip_header_string_full : forall cd ca : cipher, ciphers_ok cd ca ->
+  forall kbpk hs key mask tape s,
+  bytes_ok kbpk = true -> bytes_ok key = true -> bytes_ok tape = true ->
+  wrap_str cd ca kbpk hs key mask tape = Ok s ->
+  exists h n, header_load default_header hs = (h, Ok n) /\ unwrap cd ca kbpk s = Ok (h, key).
+Proof. exact roundtrip_str_full. Qed.
+Print Assumptions C01_roundtrip_header_string_full.
+
+(* the header unwrap returns is well formed (any ciphers, any input) ... *)
+Theorem C01_unwrap_header_ok : forall (cd ca : cipher) kbpk s h k,
+  unwrap cd ca kbpk s = Ok (h, k) -> header_ok h.
+Proof. exact unwrap_returns_header_ok. Qed.
+Print Assumptions C01_unwrap_header_ok.
+
+(* ... and the key it returns is a byte string *)
+Theorem C01_unwrap_key_bytes_ok : forall cd ca : cipher, ciphers_ok cd ca ->
+  forall kbpk s h k, unwrap cd ca kbpk s = Ok (h, k) -> bytes_ok k = true.
+Proof. exact unwrap_key_bytes_ok. Qed.
+Print Assumptions C01_unwrap_key_bytes_ok.
+
+(* idempotence: what unwrap returned, wrapped again (any mask, any random draw
+   for which the wrap succeeds), unwraps to the same header and key; no premise
+   on h or k *)
+Theorem C01_rewrap_roundtrip : forall cd ca : cipher, ciphers_ok cd ca ->
+  forall kbpk s h k mask tape s',
+  bytes_ok kbpk = true -> bytes_ok tape = true ->
+  unwrap cd ca kbpk s = Ok (h, k) ->
+  kb_wrap cd ca kbpk h k mask tape = Ok s' ->
+  unwrap cd ca kbpk s' = Ok (h, k).
+Proof. exact rewrap_roundtrip. Qed.
+Print Assumptions C01_rewrap_roundtrip.
+
+(* ------------------------------------------------------------------ *)
 (* Examples: the premises are satisfiable for each version              *)
 
 (* "<v>....P0TE00N..R7" with blocks KS = "00604B120F9292800000", T1 = "ab c!";
@@ -200,4 +261,45 @@ Proof.
   - intros (_ & _ & _ & _ & _ & _ & _ & Hb & _). inversion Hb as [|? ? (_ & _ & Hp & _) _]; subst.
     discriminate Hp.
   - eexists. split; [vm_compute; reflexivity|]. split; [vm_compute; reflexivity|]. discriminate.
+Qed.
+
+(* ------------------------------------------------------------------ *)
+(* C01_roundtrip_header_string_full instantiated: the header string
+   "D0000K0AB16S02R7" + "KS08ABCD" + "T107x y" (two optional blocks, reserved
+   field "R7"); the theorem gives the unwrap result, the load is computed *)
+Definition ex_hs2 : str :=
+  [68; 48;48;48;48; 75;48; 65; 66; 49;54; 83; 48;50; 82;55]
+  ++ [75;83; 48;56; 65;66;67;68] ++ [84;49; 48;55; 120;32;121].
+Definition ex_hs2_header : header :=
+  mkHeader [68] [75; 48] [65] [66] [49; 54] [83] [82; 55]
+           [([75; 83], [65; 66; 67; 68]); ([84; 49], [120; 32; 121])].
+
+Example C01_header_string_full_example :
+  exists s, wrap_str toy_tdes toy_aes kbpk24 ex_hs2 ex_key None (ex_tape 41) = Ok s /\
+            header_load default_header ex_hs2 = (ex_hs2_header, Ok 31%nat) /\
+            unwrap toy_tdes toy_aes kbpk24 s = Ok (ex_hs2_header, ex_key).
+Proof.
+  destruct (wrap_str toy_tdes toy_aes kbpk24 ex_hs2 ex_key None (ex_tape 41)) as [s|e] eqn:W;
+    [|vm_compute in W; discriminate W].
+  exists s. split; [reflexivity|].
+  assert (L' : header_load default_header ex_hs2 = (ex_hs2_header, Ok 31%nat))
+    by (vm_compute; reflexivity).
+  split; [exact L'|].
+  destruct (C01_roundtrip_header_string_full _ _ toy_ciphers_ok kbpk24 ex_hs2 ex_key None
+              (ex_tape 41) s) as (h & n & L & U);
+    try exact W; try (vm_compute; reflexivity).
+  rewrite L' in L. injection L as <- _. exact U.
+Qed.
+
+(* the same by evaluation, and the re-wrap of what was unwrapped (another mask
+   and another random draw) *)
+Example C01_rewrap_example : exists s s',
+  wrap_str toy_tdes toy_aes kbpk24 ex_hs2 ex_key None (ex_tape 41) = Ok s /\
+  unwrap toy_tdes toy_aes kbpk24 s = Ok (ex_hs2_header, ex_key) /\
+  kb_wrap toy_tdes toy_aes kbpk24 ex_hs2_header ex_key (Some 3%Z) (ex_tape 9) = Ok s' /\
+  s' <> s /\
+  unwrap toy_tdes toy_aes kbpk24 s' = Ok (ex_hs2_header, ex_key).
+Proof.
+  eexists. eexists. split; [vm_compute; reflexivity|]. split; [vm_compute; reflexivity|].
+  split; [vm_compute; reflexivity|]. split; [discriminate | vm_compute; reflexivity].
 Qed.
